@@ -43,6 +43,17 @@ def _key(owner, name):
 
 def reset():
     """Restore recorded containers to their pristine content; record newly seen ones."""
+    if not _BASE:
+        # the baseline is taken of modules as a fresh process has them after import: have them imported before the
+        # first execution runs any of their code (a global first seen AFTER an execution has rebound it cannot be told
+        # from its pristine value)
+        import importlib
+
+        for mod in ("pyramid", "toast", "merge", "multi_tan", "multi_wcs", "samplers", "image", "builder", "collection", "par_util", "study", "fits_tiler", "progress", "cli", "pipeline", "wwtl"):
+            try:
+                importlib.import_module("toasty." + mod)
+            except Exception:
+                pass
     for owner, name, val in _slots():
         k = _key(owner, name)
         if k not in _BASE:
